@@ -17,7 +17,6 @@ package ocifilter
 import (
 	"context"
 	"io"
-	"path"
 	"strings"
 
 	"cuelabs.dev/go/oci/ociregistry"
@@ -199,5 +198,10 @@ func (r *subRegistry) repo(name string) string {
 		// empty name.
 		return ""
 	}
-	return path.Join(r.prefix, name)
+	// Note: don't use path.Join because that cleans the
+	// result, so a name like "../x" would escape from the
+	// prefix and other malformed names would end up as
+	// aliases for valid ones; an invalid name must stay
+	// invalid so that the underlying registry rejects it.
+	return r.prefix + "/" + name
 }
